@@ -192,6 +192,7 @@ func runC20Case(ctx *Ctx, c SDCase) {
 	s.mg = &mgmtState{deletedIDs: map[uint32]string{}, everNames: map[string]bool{}}
 	s.mg.ctxStore = server.NewContextualStore(core.Store)
 	defer func() { s.core.Close() }()
+	defer c20DropCronEntries()
 	defer func() {
 		if p := recover(); p != nil {
 			s.viol("C20", "panic", fmt.Sprintf("panic: %v", p), nil, string(debug.Stack()))
@@ -267,6 +268,7 @@ func runC20Case(ctx *Ctx, c SDCase) {
 				s.abort = true
 				break
 			}
+			c20DropCronEntries()
 			s.core = hub.OpenCoreEnv(env.confAlias)
 			s.mg.ctxStore = server.NewContextualStore(s.core.Store)
 			bm, err = server.NewBackupManager(s.core.Store, env.confAlias)
@@ -398,6 +400,7 @@ func c20Foreign(ctx *Ctx, r *rand.Rand) {
 	_ = os.WriteFile(filepath.Join(env.BackupLocation, "datahub-backup.kv"), []byte("someone else's backup"), 0o644)
 	core := hub.OpenCoreEnv(env.confAlias)
 	defer core.Close()
+	defer c20DropCronEntries()
 	core.Dsm.CreateDataset("da", nil)
 	v := gen.NewVocab(3, 3, 3)
 	_ = StoreBatch(core, "da", []model.Ent{gen.Entity(r, v, v.IDs[0])}, false)
@@ -625,5 +628,17 @@ func (s *sdRun) c20RestorePointInTime(dir string, pre, post map[string]string, n
 	s.ctx.Out.Stat("c20_busy_restore_prefix_lengths_seen", int64(j))
 	if j > 0 && j < len(postF)-len(preF) {
 		s.ctx.Out.Stat("c20_busy_restores_strictly_inside_the_write_sequence", 1)
+	}
+}
+
+// c20DropCronEntries: every NewBackupManager registers itself with the process-wide cron of jobrunner, which keeps
+// the manager, its store and badger's caches (~400 MB) reachable after the store was closed. A hub process creates
+// one manager in its life; this process creates hundreds, so the harness forgets the closed ones.
+func c20DropCronEntries() {
+	if jobrunner.MainCron == nil {
+		return
+	}
+	for _, e := range jobrunner.MainCron.Entries() {
+		jobrunner.MainCron.Remove(e.ID)
 	}
 }
